@@ -244,14 +244,14 @@ def cases_op(rng, tier):
             doms = C.lst(dom, lambda d: '(%s, %s, %s%%Z, (%s, %s))' % (C.q(d[0]), C.q(d[1]), C.z(d[2]),
                                                                     C.b(d[3][0]), C.b(d[3][1])))
             term = ('{| o_fixed := %s; o_adjguard := %s; o_m := %s; o_c := %s; o_dom := %s; o_nnew := %s%%Z; o_off := %s; '
-                    'o_flags := %s; o_rmin := %s; o_rmax := %s; o_rcs := %s; o_offset := %s%%Z; '
+                    'o_flags := %s; o_rmin := %s; o_rmax := %s; o_rcs := %s; o_offset := %s%%Z; o_islinear := %s; o_axes := %s%%nat; '
                     'o_x := %s; o_fx := %s; o_y := %s; o_ay := %s; o_inv := %s |}'
                     % (C.b(fixed), C.b(adjguard and not (op.domain.is_uniformly_weighted and op.range.is_uniformly_weighted)),
                        T.PMODE[mode], C.q(c), doms, C.zs(nnew),
                        C.lst(offs, lambda o: 'None' if o is None else '(Some %s%%Z)' % C.z(o)),
                        C.lst(kw_flags, lambda f: '(%s, %s)' % (C.b(f[0]), C.b(f[1]))),
                        C.qs(R.min_pt.tolist()), C.qs(R.max_pt.tolist()), C.qs(R.cell_sides.tolist()),
-                       C.zs([int(o) for o in op.offset]),
+                       C.zs([int(o) for o in op.offset]), C.b(bool(op.is_linear)), C.nats(list(op.axes)),
                        C.qs(x.ravel().tolist()), fx, C.qs(y.ravel().tolist()), ay, inv))
             cs.add(term, {'mode': mode, 'domain': dom, 'ran_shp': nnew, 'offset': offs, 'kw_nodes_on_bdry': kw_flags,
                           'pad_const': c, 'x': x.tolist(), 'explicit_range': explicit},
